@@ -10,29 +10,29 @@ package c08
 
 import (
 	"bytes"
-	"math/bits"
-	"sync"
 	"encoding/hex"
 	"fmt"
+	"math/bits"
 	"os"
 	"runtime/debug"
 	"strings"
+	"sync"
 	"testing"
 	"time"
 
+	"github.com/bronlabs/bron-crypto/pkg/base/algebra"
 	"github.com/bronlabs/bron-crypto/pkg/base/curves/k256"
 	"github.com/bronlabs/bron-crypto/pkg/base/curves/pairable/bls12381"
-	"github.com/bronlabs/bron-crypto/pkg/base/algebra"
 	"github.com/bronlabs/bron-crypto/pkg/mpc/session"
 	"github.com/bronlabs/bron-crypto/pkg/proofs/dlog/batch_schnorr"
 	"github.com/bronlabs/bron-crypto/pkg/proofs/okamoto"
-	"github.com/bronlabs/bron-crypto/pkg/proofs/sigma/compose/sigand"
-	"github.com/bronlabs/bron-crypto/pkg/proofs/sigma/compose/sigor"
 	"github.com/bronlabs/bron-crypto/pkg/proofs/sigma"
 	"github.com/bronlabs/bron-crypto/pkg/proofs/sigma/compiler"
 	"github.com/bronlabs/bron-crypto/pkg/proofs/sigma/compiler/fiatshamir"
 	"github.com/bronlabs/bron-crypto/pkg/proofs/sigma/compiler/fischlin"
 	"github.com/bronlabs/bron-crypto/pkg/proofs/sigma/compiler/randfischlin"
+	"github.com/bronlabs/bron-crypto/pkg/proofs/sigma/compose/sigand"
+	"github.com/bronlabs/bron-crypto/pkg/proofs/sigma/compose/sigor"
 
 	"verifmc/engine"
 )
@@ -239,6 +239,7 @@ type cfg struct {
 	c        compiler.Name
 	mode     bitMode
 	restrict idxAlphabet
+	chunk    int  // edits per execution of the proof-edit section
 	light    bool // quick tier, Fischlin-type compilers: only the context pairs that need at most one extra proof
 }
 
@@ -337,8 +338,6 @@ func contextBody(cfgs []cfg) func(*engine.X) {
 // ---------------------------------------------------------------------------------------------
 // section: proof edits on the CBOR tree
 
-const chunkSize = 96
-
 var editCache memo[[]edit]
 
 func (c cfg) edits() (orig []byte, eds []edit, err error) {
@@ -374,6 +373,7 @@ func proofEditBody(cfgs []cfg) func(*engine.X) {
 			x.Failf("prove/"+compShort(c), "%s: Prove failed: %v", cf, err)
 			return
 		}
+		chunkSize := max(cf.chunk, 1)
 		nChunks := (len(eds) + chunkSize - 1) / chunkSize
 		ch := x.Choose("chunk", nChunks)
 		lo, hi := ch*chunkSize, min((ch+1)*chunkSize, len(eds))
@@ -464,9 +464,7 @@ var planOnce = sync.OnceValue(func() *plan {
 		pl.all = append(pl.all, f...)
 		pl.fischlinSet[f[0]] = true
 		if fi == 0 {
-			for _, n := range f {
-				pl.fischlinSet[n] = true
-			}
+			pl.fischlinSet[f[1]], pl.fischlinSet[f[3]] = true, true // Schnorr AND2 and OR(left)
 		}
 	}
 	for fi, f := range famsB {
@@ -501,9 +499,11 @@ func TestCheck(t *testing.T) {
 	pl := buildPlan()
 	all, fischlinSet := pl.all, pl.fischlinSet
 	all = only(all)
-	engine.Explore(admissionBody(all), engine.Opts{Name: "admission", Budget: engine.Budget(time.Minute, 5*time.Minute)})
-	engine.Explore(refusalBody(), engine.Opts{Name: "constructor-refusals", Budget: engine.Budget(time.Minute, 5*time.Minute)})
-
+	ec := len(all) > 0
+	if ec {
+		engine.Explore(admissionBody(all), engine.Opts{Name: "admission", Budget: engine.Budget(time.Minute, 5*time.Minute)})
+		engine.Explore(refusalBody(), engine.Opts{Name: "constructor-refusals", Budget: engine.Budget(time.Minute, 5*time.Minute)})
+	}
 	var cfgs []cfg
 	var zkSet []*niInst
 	for _, n := range all {
@@ -511,8 +511,9 @@ func TestCheck(t *testing.T) {
 			zkSet = append(zkSet, n)
 		}
 		for _, c := range compilers {
-			cf := cfg{n: n, c: c, mode: bitsAll}
+			cf := cfg{n: n, c: c, mode: bitsAll, chunk: 96}
 			if c != fiatshamir.Name {
+				cf.chunk = 24
 				if !engine.Thorough() {
 					if !fischlinSet[n] {
 						continue
@@ -528,9 +529,59 @@ func TestCheck(t *testing.T) {
 			cfgs = append(cfgs, cf)
 		}
 	}
-	engine.Explore(contextBody(cfgs), engine.Opts{Name: "context+statement/ec", MaxFails: 1 << 20, Budget: engine.Budget(4*time.Minute, 30*time.Minute)})
-	engine.Explore(proofEditBody(cfgs), engine.Opts{Name: "proof-edits/ec", MaxFails: 1 << 20, Budget: engine.Budget(6*time.Minute, 90*time.Minute)})
-	engine.Explore(sigmaBody(all), engine.Opts{Name: "sigma-level/ec", Budget: engine.Budget(2*time.Minute, 10*time.Minute)})
-	engine.Explore(zkBody(zkSet), engine.Opts{Name: "zk-compiler/ec", MaxFails: 1 << 20, Budget: engine.Budget(3*time.Minute, 30*time.Minute)})
-}
+	// Paillier-based protocols (fixed test keys; plain composition)
+	heavy := only(heavyInsts())
+	var heavyCfgs []cfg
+	var heavyZk []*niInst
+	for _, n := range heavy {
+		u := n.unitMS
+		if u <= 50 || (engine.Thorough() && u <= 500) {
+			heavyZk = append(heavyZk, n)
+		}
+		for _, c := range compilers {
+			cf := cfg{n: n, c: c, light: true, chunk: max(1, min(96, 2000/u))}
+			switch {
+			case c != fiatshamir.Name:
+				// Fischlin-type compilers on Paillier-sized protocols: thorough only, and only where one Fiat-Shamir
+				// verification costs <= 200 ms (range, affg*, dec would need minutes per 16-fold proof)
+				if !engine.Thorough() || u > 200 {
+					continue
+				}
+				cf.mode, cf.restrict, cf.chunk = bitsLSB, idx2, max(1, 100/u)
+			case engine.Thorough():
+				cf.light = false
+				switch {
+				case u <= 50:
+					cf.mode, cf.restrict = bitsAll, idx5 // every bit where the proof is <= 4 KiB (else leaf level, see edits())
+				case u <= 500:
+					cf.mode, cf.restrict = bitsLeaf, idx5
+				default:
+					cf.mode, cf.restrict = bitsLSB, idx2
+				}
+			case u <= 50:
+				cf.mode, cf.restrict = bitsLeaf, idx5
+			case u <= 200:
+				cf.mode, cf.restrict = bitsLSB, idx2
+			default:
+				cf.mode, cf.restrict = bitsLSB, idx1
+			}
+			heavyCfgs = append(heavyCfgs, cf)
+		}
+	}
+	if ec {
+		engine.Explore(contextBody(cfgs), engine.Opts{Name: "context+statement/ec", MaxFails: 1 << 20, Budget: engine.Budget(4*time.Minute, 30*time.Minute)})
+		engine.Explore(proofEditBody(cfgs), engine.Opts{Name: "proof-edits/ec", MaxFails: 1 << 20, Budget: engine.Budget(6*time.Minute, 90*time.Minute)})
+		engine.Explore(sigmaBody(all), engine.Opts{Name: "sigma-level/ec", Budget: engine.Budget(2*time.Minute, 10*time.Minute)})
+		engine.Explore(zkBody(zkSet), engine.Opts{Name: "zk-compiler/ec", MaxFails: 1 << 20, Budget: engine.Budget(3*time.Minute, 30*time.Minute)})
+	}
+	if len(heavy) == 0 {
+		return
+	}
 
+	engine.Explore(admissionBody(heavy), engine.Opts{Name: "admission/paillier", Budget: engine.Budget(time.Minute, 5*time.Minute)})
+	engine.Explore(contextBody(heavyCfgs), engine.Opts{Name: "context+statement/paillier", MaxFails: 1 << 20, Budget: engine.Budget(4*time.Minute, 30*time.Minute)})
+	sec := engine.Explore(proofEditBody(heavyCfgs), engine.Opts{Name: "proof-edits/paillier", MaxFails: 1 << 20, Budget: engine.Budget(6*time.Minute, 90*time.Minute)})
+	engine.Explore(sigmaBody(heavy), engine.Opts{Name: "sigma-level/paillier", Budget: engine.Budget(3*time.Minute, 15*time.Minute)})
+	engine.Explore(zkBody(heavyZk), engine.Opts{Name: "zk-compiler/paillier", MaxFails: 1 << 20, Budget: engine.Budget(3*time.Minute, 30*time.Minute)})
+	sec.Note("verifications isolated in child processes (decoded proof carried a nil component): %d, of which the child was killed by an unrecoverable panic: %d; total child wall time %.1fs", childCount.Load(), childCrashes.Load(), float64(childNanos.Load())/1e9)
+}
